@@ -608,9 +608,10 @@ func NewRaft(conf *Config, fsm FSM, logs LogStore, stable StableStore, snaps Sna
 	}
 
 	// Scan through the log for any configuration change entries.
+	// Entries replayed by restoreFromCommittedLogs have only been handed to the
+	// FSM, their configuration changes still have to be processed here.
 	snapshotIndex, _ := r.getLastSnapshot()
-	lastappliedIndex := r.getLastApplied()
-	for index := max(snapshotIndex, lastappliedIndex) + 1; index <= lastLog.Index; index++ {
+	for index := snapshotIndex + 1; index <= lastLog.Index; index++ {
 		var entry Log
 		if err := r.logs.GetLog(index, &entry); err != nil {
 			r.logger.Error("failed to get log", "index", index, "error", err)
